@@ -18,6 +18,15 @@ package sweep
 //     of its script, successive published transactions of a request have
 //     non-decreasing fee rate; and the fee function of a live record sits at
 //     its ceiling from deadline-1 on.
+//
+//  3. TestVerifC18Regroup (end of file): one round of the real UtxoSweeper
+//     (updateSweeperInputs / sweepPendingInputs / sweep) over the real
+//     BudgetAggregator in front of the real TxPublisher, on generated
+//     populations of pending inputs some of which were already offered at a
+//     fee rate: the regrouped request never offers an input less than it was
+//     already offered (up to the request's ceiling), every transaction pays
+//     no more than the budgets attached to the inputs it spends and spends
+//     all inputs of its request.
 
 import (
 	"errors"
@@ -1204,6 +1213,741 @@ func TestVerifC18Publisher(t *testing.T) {
 		vc.Case(i, c)
 		verifC18RunPub(t, vc, r.Fork("run"), &c)
 		if i%6000 == 3 && i < 100000 {
+			vc.Sample(c)
+		}
+		vc.CaseDone(i)
+	}
+}
+
+// ---------------------------------------------------------------------------
+// 3. Regroup monitor.
+//
+// TestVerifC18Regroup drives the real grouping path above the publisher: a
+// generated population of pending SweeperInputs (mixed budgets, deadlines,
+// Immediate, locktimes, exclusive groups, required outputs; some carrying
+// Params.StartingFeeRate as left behind by markInputsPublishFailed / the
+// mempool RBFInfo of an earlier attempt, some not) is put into a real
+// UtxoSweeper whose aggregator is the real BudgetAggregator and whose
+// Publisher is the real TxPublisher (behind a recording shim). The real
+// updateSweeperInputs / sweepPendingInputs / sweep build the BumpRequests,
+// the real TxPublisher builds the fee functions and the transactions, which a
+// recording wallet judges:
+//
+//   regroup_feerate_monotone  for every input that was already offered at a
+//       rate r (its Params.StartingFeeRate), the fee function built for the
+//       request the input is regrouped into, and every transaction handed to
+//       the wallet that spends the input, offer no less than r - unless r is
+//       above the request's ceiling min(sum of its inputs' budgets / size,
+//       MaxFeeRate), in which case no less than that ceiling.
+//   regroup_budget            every transaction handed to the wallet pays a
+//       fee (sum in - sum out) no larger than the sum of the budgets attached
+//       to the inputs it spends (looked up per outpoint in the generated
+//       population, not taken from BumpRequest.Budget).
+//   regroup_spends_all_inputs every such transaction spends every input of
+//       the request exactly once.
+
+type verifC18RGIn struct {
+	Value     int64  `json:"value"`
+	WT        string `json:"wt"`
+	ReqOut    int64  `json:"req_out"`
+	Budget    int64  `json:"budget"`
+	Lock      uint32 `json:"locktime"`
+	Deadline  int32  `json:"deadline"` // the SweeperInput.DeadlineHeight
+	NoDLParam bool   `json:"no_deadline_param"`
+	Immediate bool   `json:"immediate"`
+	Exclusive bool   `json:"exclusive"`
+	HasStart  bool   `json:"has_start"`
+	Start     int64  `json:"start"` // sat/kw the input was last offered at
+	ViaFailed bool   `json:"via_publish_failed"`
+	PrevStart int64  `json:"start_before_that"` // >0: the failed attempt had itself started from this carried-over rate
+}
+
+// verifC18OneSet is the input set of an earlier, failed sweep as far as the
+// sweeper's result handlers look at it (its inputs).
+type verifC18OneSet struct {
+	in input.Input
+}
+
+func (o *verifC18OneSet) Inputs() []input.Input       { return []input.Input{o.in} }
+func (o *verifC18OneSet) AddWalletInputs(Wallet) error { return nil }
+func (o *verifC18OneSet) NeedWalletInput() bool        { return false }
+func (o *verifC18OneSet) DeadlineHeight() int32        { return 0 }
+func (o *verifC18OneSet) Budget() btcutil.Amount       { return 0 }
+func (o *verifC18OneSet) Immediate() bool              { return false }
+func (o *verifC18OneSet) StartingFeeRate() fn.Option[chainfee.SatPerKWeight] {
+	return fn.None[chainfee.SatPerKWeight]()
+}
+
+var _ InputSet = (*verifC18OneSet)(nil)
+
+type verifC18RGCase struct {
+	Height    int32          `json:"height"`
+	MaxInputs uint32         `json:"max_inputs"`
+	MaxVB     int64          `json:"max_fee_rate_sat_vb"`
+	Est       verifC18Est    `json:"est"`
+	Inputs    []verifC18RGIn `json:"inputs"`
+	Utxos     []int64        `json:"wallet_utxos"`
+	ChangeTy  string         `json:"change"`
+}
+
+func verifC18GenRG(r *verifRng) verifC18RGCase {
+	var c verifC18RGCase
+	c.Height = int32(1000 + r.Intn(800000))
+	c.MaxInputs = []uint32{100, 100, 100, 2, 3, 4, 5}[r.Intn(7)]
+	c.MaxVB = []int64{1000, 1000, 1000, 100, 40, 10, 2, 200}[r.Intn(8)]
+	maxKW := c.MaxVB * 250
+	c.Est.Relay = []int64{253, 253, 253, 1000, 300}[r.Intn(5)]
+	c.Est.Answer = c.Est.Relay + int64(r.Intn(4000))
+	if r.Chance(1, 5) {
+		c.Est.Answer = verifC18Rate(r, []int64{c.Est.Relay, maxKW, 2000})
+	}
+	c.Est.Fail = r.Chance(1, 25)
+	c.ChangeTy = []string{"p2tr", "p2wpkh", "p2tr", "p2wsh"}[r.Intn(4)]
+
+	// the deadlines of this population.
+	dd := []int32{-2, 0, 1, 2, 3, 4, 5, 6, 8, 10, 20, 50, 144, 1007, 1008, 1009, 1500}
+	nd := 1 + r.Intn(3)
+	var deadlines []int32
+	for k := 0; k < nd; k++ {
+		if r.Chance(1, 2) {
+			deadlines = append(deadlines, c.Height+2+int32(r.Intn(12)))
+		} else {
+			deadlines = append(deadlines, c.Height+dd[r.Intn(len(dd))])
+		}
+	}
+	// the rates of the earlier attempts some of the inputs took part in.
+	rate := func() int64 {
+		switch r.Intn(8) {
+		case 0:
+			return 1 + int64(r.Intn(300))
+		case 1, 2:
+			return 253 + int64(r.Intn(2000))
+		case 3, 4:
+			return 253 + int64(r.Intn(20000))
+		case 5:
+			d := int64(r.Intn(2000)) - 1000
+			if maxKW+d < 1 {
+				return 1
+			}
+			return maxKW + d
+		case 6:
+			return 253 + int64(r.U64n(uint64(maxKW)+1))
+		default:
+			return 253 + int64(r.U64n(3000000))
+		}
+	}
+	pool := []int64{rate()}
+	for k := r.Intn(3); k > 0; k-- {
+		pool = append(pool, rate())
+	}
+
+	n := 2 + r.Intn(9)
+	for k := 0; k < n; k++ {
+		var s verifC18RGIn
+		s.Value = verifC18Value(r)
+		if r.Chance(1, 6) {
+			wt := verifC18SecondLevel[r.Intn(len(verifC18SecondLevel))]
+			s.WT = wt.String()
+			s.ReqOut = s.Value - int64(r.Intn(3))
+			if s.ReqOut < 330 {
+				s.ReqOut = 330
+				s.Value = 330 + int64(r.Intn(3))
+			}
+		} else {
+			s.WT = verifC18WitnessTypes[r.Intn(len(verifC18WitnessTypes))].String()
+		}
+		switch r.Intn(5) {
+		case 0:
+			s.Budget = s.Value / 2
+		case 1:
+			s.Budget = s.Value
+		case 2:
+			s.Budget = 1 + int64(r.U64n(uint64(s.Value)+1))
+		case 3:
+			s.Budget = 100 + int64(r.Intn(3000))
+		default:
+			s.Budget = s.Value / int64(2+r.Intn(20))
+		}
+		if s.Budget < 1 {
+			s.Budget = 1
+		}
+		if r.Chance(1, 8) {
+			s.Lock = uint32(c.Height) - uint32(r.Intn(3))
+		}
+		s.Deadline = deadlines[r.Intn(len(deadlines))]
+		if r.Chance(1, 8) {
+			// no deadline in the params: the sweeper's default.
+			s.NoDLParam = true
+			s.Deadline = c.Height + 1008
+		}
+		s.Immediate = r.Chance(1, 4)
+		s.Exclusive = r.Chance(1, 12)
+		switch r.Intn(20) {
+		case 0:
+			// a failure that carried no rate.
+			s.HasStart = true
+		case 1, 2, 3, 4, 5, 6, 7:
+			s.HasStart = true
+			s.Start = pool[r.Intn(len(pool))]
+		case 8, 9, 10, 11:
+			s.HasStart = true
+			s.Start = rate()
+		}
+		s.ViaFailed = s.HasStart && r.Chance(2, 3)
+		if s.ViaFailed && s.Start > 1 && r.Bool() {
+			s.PrevStart = 1 + int64(r.U64n(uint64(s.Start)))
+		}
+		c.Inputs = append(c.Inputs, s)
+	}
+	for k := r.Intn(4); k > 0; k-- {
+		c.Utxos = append(c.Utxos, 1000+int64(r.U64n(3000000)))
+	}
+	return c
+}
+
+// verifC18RGReq is what the monitor knows about one BumpRequest the sweeper
+// handed to the publisher.
+type verifC18RGReq struct {
+	req      *BumpRequest
+	members  []int // indices into the case's inputs
+	sumBud   int64
+	weight   int64 // model weight of the sweep tx with its change output
+	ceilLo   int64
+	ceil     int64
+	multi    bool
+	corner   bool
+	topup    bool
+	handed   int
+	ffJudged bool
+	id       int // smallest member: stable name of the request (creation order follows map iteration)
+}
+
+type verifC18RGHanded struct {
+	Via     string `json:"via"`
+	Height  int32  `json:"height"`
+	Req     int    `json:"request_of_input"`
+	Fee     int64  `json:"fee"`
+	Weight  int64  `json:"weight"`
+	NIn     int    `json:"n_in"`
+	Nominal int64  `json:"fee_function_rate"`
+}
+
+// verifC18RG is the state of one regroup case: it is the sweeper's Bumper
+// (a shim in front of the real TxPublisher) and, through the embedded
+// recording wallet, the Wallet of both.
+type verifC18RG struct {
+	*verifC18Wallet // boring Wallet methods + utxos + vals
+
+	vc *verifCtx
+	c  *verifC18RGCase
+	tp *TxPublisher
+
+	byOp   map[wire.OutPoint]int // outpoint -> index of the generated input
+	last   []int64               // per input: the rate it was last offered at
+	reqs   []*verifC18RGReq
+	reqOf  map[wire.OutPoint]int // spec outpoint -> request index
+	subs   []<-chan *BumpResult
+	log    []verifC18RGHanded
+	events map[string]int
+}
+
+func (g *verifC18RG) witness() any {
+	type rq struct {
+		Members  []int  `json:"members"`
+		Budget   int64  `json:"budget"`
+		SumBud   int64  `json:"sum_input_budgets"`
+		Deadline int32  `json:"deadline"`
+		Start    string `json:"starting_fee_rate"`
+		Weight   int64  `json:"model_weight"`
+		Ceil     int64  `json:"ceiling"`
+		Imm      bool   `json:"immediate"`
+		NIn      int    `json:"n_inputs"`
+	}
+	var rs []rq
+	qs := append([]*verifC18RGReq(nil), g.reqs...)
+	sort.Slice(qs, func(i, j int) bool { return qs[i].id < qs[j].id })
+	for _, q := range qs {
+		rs = append(rs, rq{q.members, int64(q.req.Budget), q.sumBud, q.req.DeadlineHeight,
+			fmt.Sprintf("%v", q.req.StartingFeeRate), q.weight, q.ceil, q.req.Immediate, len(q.req.Inputs)})
+	}
+	return map[string]any{"case": g.c, "requests": rs, "handed": g.log}
+}
+
+// verifC18ModelWeight is the BIP-141 weight of a sweep transaction spending
+// the given inputs (witnesses at the size upper bound of their type) to their
+// required outputs plus one change output, written down independently of the
+// sweep package's weight estimator.
+func verifC18ModelWeight(inputs []input.Input, changePk []byte) (int64, bool) {
+	varint := func(n int) int64 {
+		switch {
+		case n < 0xfd:
+			return 1
+		case n <= 0xffff:
+			return 3
+		default:
+			return 5
+		}
+	}
+	nOut := 1
+	outBytes := int64(8) + varint(len(changePk)) + int64(len(changePk))
+	var witness int64 = 2 // marker + flag
+	for _, in := range inputs {
+		size, nested, err := in.WitnessType().SizeUpperBound()
+		if err != nil || nested {
+			return 0, false
+		}
+		witness += int64(size)
+		if o := in.RequiredTxOut(); o != nil {
+			nOut++
+			outBytes += 8 + varint(len(o.PkScript)) + int64(len(o.PkScript))
+		}
+	}
+	base := int64(4) + varint(len(inputs)) + int64(41*len(inputs)) + varint(nOut) + outBytes + 4
+	return 4*base + witness, true
+}
+
+// judgeOffer is the monotonicity oracle: a request offers rate (through its
+// fresh fee function, or on a transaction handed to the wallet).
+func (g *verifC18RG) judgeOffer(qi int, rate int64, what string) {
+	q := g.reqs[qi]
+	for _, m := range q.members {
+		prev := g.last[m]
+		if prev <= 0 {
+			continue
+		}
+		g.vc.Count("oracle_regroup_monotone_evals", 1)
+		need, cls := prev, ""
+		if prev > q.ceilLo {
+			need, cls = q.ceilLo, "+last-offered-above-ceiling"
+			g.vc.Count("regroup_monotone_ceiling_corner_evals", 1)
+		}
+		if rate < need {
+			g.vc.Violation("regroup_feerate_monotone", what+"-below-rate-already-offered-for-an-input"+cls,
+				fmt.Sprintf("request of inputs %v (deadline %d, StartingFeeRate %v): %s offers %d sat/kw, input %d was already offered at %d sat/kw "+
+					"(ceiling of the request: min(sum of budgets %d *1000/ weight %d, max %d) = %d)",
+					q.members, q.req.DeadlineHeight, q.req.StartingFeeRate, what, rate, m, prev,
+					q.sumBud, q.weight, q.req.MaxFeeRate, q.ceil), g.witness())
+			return
+		}
+	}
+}
+
+// Broadcast is the sweeper's Bumper: it records the request the real
+// UtxoSweeper.sweep built, judges the fee function the real publisher builds
+// for it, and forwards it to the real TxPublisher.
+func (g *verifC18RG) Broadcast(req *BumpRequest) <-chan *BumpResult {
+	vc := g.vc
+	q := &verifC18RGReq{req: req}
+	qi := len(g.reqs)
+	g.reqs = append(g.reqs, q)
+	vc.Count("regroup_requests", 1)
+
+	starts := map[int64]bool{}
+	for _, in := range req.Inputs {
+		m, ok := g.byOp[in.OutPoint()]
+		if !ok {
+			q.topup = true
+			continue
+		}
+		if prevQ, dup := g.reqOf[in.OutPoint()]; dup {
+			vc.Diag("regroup_input_in_two_requests", fmt.Sprintf("input %d in requests %d and %d", m, prevQ, qi))
+		}
+		g.reqOf[in.OutPoint()] = qi
+		q.members = append(q.members, m)
+		q.sumBud += g.c.Inputs[m].Budget
+		if g.last[m] > 0 {
+			starts[g.last[m]] = true
+		}
+	}
+	q.id = -1
+	for _, m := range q.members {
+		if q.id < 0 || m < q.id {
+			q.id = m
+		}
+	}
+	q.multi = len(starts) > 1
+	if q.multi {
+		vc.Count("regroup_requests_mixed_last_offered", 1)
+	}
+	if len(q.members) > 1 {
+		vc.Count("regroup_requests_multi_input", 1)
+	}
+	if q.topup {
+		vc.Count("regroup_requests_with_wallet_topup", 1)
+	}
+	maxKW := g.c.MaxVB * 250
+	w, ok := verifC18ModelWeight(req.Inputs, req.DeliveryAddress.DeliveryAddress)
+	if !ok {
+		vc.Diag("regroup_weight_model_unsupported_input", fmt.Sprintf("request %d", qi))
+		w = 1
+	}
+	q.weight = w
+	q.ceil = q.sumBud * 1000 / w
+	// slack: integer rounding of the rate and a few weight units between
+	// the model and lnd's size estimate.
+	q.ceilLo = q.sumBud*1000/(w+8) - 1
+	if maxKW < q.ceil {
+		q.ceil = maxKW
+	}
+	if maxKW < q.ceilLo {
+		q.ceilLo = maxKW
+	}
+	for _, m := range q.members {
+		if g.last[m] > q.ceilLo {
+			q.corner = true
+		}
+	}
+
+	// The request itself: what the caller allows is what is attached to
+	// the inputs (diagnostic here; the verdict is taken on transactions).
+	if int64(req.Budget) != q.sumBud {
+		vc.Diag("regroup_request_budget_differs_from_input_budgets",
+			fmt.Sprintf("request budget %d, inputs carry %d", req.Budget, q.sumBud))
+	}
+	if int64(req.MaxFeeRate) != maxKW {
+		vc.Diag("regroup_request_max_fee_rate_differs_from_config",
+			fmt.Sprintf("request %d, configured %d", req.MaxFeeRate, maxKW))
+	}
+
+	// The fee function as the publisher builds it for this request.
+	if ok {
+		f, err := g.tp.initializeFeeFunction(req)
+		vc.Count("regroup_fee_functions", 1)
+		if err != nil || f == nil {
+			vc.Count("regroup_fee_function_errors", 1)
+		} else {
+			q.ffJudged = true
+			g.judgeOffer(qi, int64(f.FeeRate()), "fee-function")
+		}
+	}
+	sub := g.tp.Broadcast(req)
+	g.subs = append(g.subs, sub)
+	g.drain()
+
+	// the sweeper's monitor goroutine gets a channel of its own: results
+	// are consumed synchronously by the monitor.
+	return make(chan *BumpResult)
+}
+
+func (g *verifC18RG) drain() {
+	for _, sub := range g.subs {
+		for more := true; more; {
+			select {
+			case res, ok := <-sub:
+				if !ok {
+					more = false
+					break
+				}
+				g.events[res.Event.String()]++
+			default:
+				more = false
+			}
+		}
+	}
+}
+
+func (g *verifC18RG) judgeTx(via string, tx *wire.MsgTx) {
+	vc := g.vc
+	qi := -1
+	for _, in := range tx.TxIn {
+		if k, ok := g.reqOf[in.PreviousOutPoint]; ok {
+			qi = k
+			break
+		}
+	}
+	if qi < 0 {
+		vc.Diag("regroup_tx_without_population_input", via)
+		return
+	}
+	q := g.reqs[qi]
+	q.handed++
+
+	vc.Count("oracle_regroup_inputs_evals", 1)
+	seen := map[wire.OutPoint]int{}
+	var sumIn, sumBud int64
+	unknown := false
+	for _, in := range tx.TxIn {
+		seen[in.PreviousOutPoint]++
+		v, ok := g.vals[in.PreviousOutPoint]
+		if !ok {
+			unknown = true
+		}
+		sumIn += v
+		if m, ok := g.byOp[in.PreviousOutPoint]; ok && seen[in.PreviousOutPoint] == 1 {
+			sumBud += g.c.Inputs[m].Budget
+		}
+	}
+	missing := 0
+	for _, inp := range q.req.Inputs {
+		if seen[inp.OutPoint()] != 1 {
+			missing++
+		}
+	}
+	if missing > 0 || unknown || len(tx.TxIn) != len(q.req.Inputs) {
+		vc.Violation("regroup_spends_all_inputs", fmt.Sprintf("missing=%d-unknown=%v", missing, unknown),
+			fmt.Sprintf("%s: tx spends %d inputs, request of inputs %v has %d (missing %d, unknown %v)", via,
+				len(tx.TxIn), q.members, len(q.req.Inputs), missing, unknown), g.witness())
+		return
+	}
+	var sumOut int64
+	hasChange := false
+	for _, o := range tx.TxOut {
+		sumOut += o.Value
+		if string(o.PkScript) == string(q.req.DeliveryAddress.DeliveryAddress) {
+			hasChange = true
+		}
+	}
+	fee := sumIn - sumOut
+	weight := verifC18Weight(tx)
+	nominal := int64(-1)
+	g.tp.records.Range(func(_ uint64, r *monitorRecord) bool {
+		if r.req == q.req && r.feeFunction != nil {
+			nominal = int64(r.feeFunction.FeeRate())
+		}
+		return true
+	})
+	g.log = append(g.log, verifC18RGHanded{Via: via, Height: g.height, Req: q.id, Fee: fee, Weight: weight,
+		NIn: len(tx.TxIn), Nominal: nominal})
+
+	// calibration of the weight model behind the ceiling (diagnostic).
+	wWith := weight
+	if !hasChange {
+		pk := q.req.DeliveryAddress.DeliveryAddress
+		wWith += int64(4 * (8 + 1 + len(pk)))
+	}
+	vc.Count("regroup_weight_model_checks", 1)
+	if d := wWith - q.weight; d > 4 || d < -4 {
+		vc.Count("regroup_weight_model_mismatch", 1)
+		vc.Diag("regroup_weight_model_mismatch", fmt.Sprintf("model %d, tx (with change) %d", q.weight, wWith))
+	}
+
+	// fee <= the budget attached to the inputs the tx spends.
+	vc.Count("oracle_regroup_budget_evals", 1)
+	if fee > sumBud || fee < 0 {
+		vc.Violation("regroup_budget", fmt.Sprintf("%s-change=%v", via, hasChange),
+			fmt.Sprintf("%s: request of inputs %v: fee %d (in %d - out %d) exceeds the budgets attached to the spent inputs %d (request budget %d)",
+				via, q.members, fee, sumIn, sumOut, sumBud, q.req.Budget), g.witness())
+	}
+
+	// offered rate never below what an input was already offered at.
+	if nominal >= 0 {
+		g.judgeOffer(qi, nominal, "tx")
+		if via == "publish" {
+			for _, m := range q.members {
+				if nominal > g.last[m] {
+					g.last[m] = nominal
+				}
+			}
+		}
+	} else {
+		vc.Diag("regroup_tx_without_fee_function", via)
+	}
+}
+
+func (g *verifC18RG) CheckMempoolAcceptance(tx *wire.MsgTx) error {
+	g.mu.Lock()
+	defer g.mu.Unlock()
+	g.judgeTx("testmempoolaccept", tx)
+	return nil
+}
+
+func (g *verifC18RG) PublishTransaction(tx *wire.MsgTx, _ string) error {
+	g.mu.Lock()
+	defer g.mu.Unlock()
+	g.judgeTx("publish", tx)
+	return nil
+}
+
+var (
+	_ Wallet = (*verifC18RG)(nil)
+	_ Bumper = (*verifC18RG)(nil)
+)
+
+func verifC18RunRG(t *testing.T, vc *verifCtx, r *verifRng, c *verifC18RGCase) {
+	g := &verifC18RG{
+		verifC18Wallet: &verifC18Wallet{vc: vc, vals: map[wire.OutPoint]int64{}, height: c.Height},
+		vc:             vc, c: c, byOp: map[wire.OutPoint]int{}, reqOf: map[wire.OutPoint]int{},
+		events: map[string]int{},
+	}
+	for _, v := range c.Utxos {
+		op := wire.OutPoint{Index: uint32(r.Intn(4))}
+		copy(op.Hash[:], r.Bytes(32))
+		ty := lnwallet.WitnessPubKey
+		pk := verifC18Script(r, "p2wpkh")
+		if r.Bool() {
+			ty = lnwallet.TaprootPubkey
+			pk = verifC18Script(r, "p2tr")
+		}
+		g.utxos = append(g.utxos, &lnwallet.Utxo{AddressType: ty, Value: btcutil.Amount(v),
+			Confirmations: 6, PkScript: pk, OutPoint: op})
+		g.vals[op] = v
+	}
+	notifier := &verifC18Notifier{spent: map[wire.OutPoint]*wire.MsgTx{}}
+	est := c.Est
+	tp := NewTxPublisher(TxPublisherConfig{
+		Signer: &verifC18Signer{}, Wallet: g, Estimator: &est, Notifier: notifier,
+		AuxSweeper: fn.None[AuxSweeper](),
+	})
+	g.tp = tp
+	tp.currentHeight.Store(c.Height)
+
+	changePk := verifC18Script(r, c.ChangeTy)
+	s := New(&UtxoSweeperConfig{
+		GenSweepScript: func() fn.Result[lnwallet.AddrWithKey] {
+			return fn.Ok(lnwallet.AddrWithKey{DeliveryAddress: changePk})
+		},
+		FeeEstimator:         &est,
+		Wallet:               g,
+		Notifier:             notifier,
+		Signer:               &verifC18Signer{},
+		MaxInputsPerTx:       c.MaxInputs,
+		MaxFeeRate:           chainfee.SatPerVByte(c.MaxVB),
+		Aggregator:           NewBudgetAggregator(&est, c.MaxInputs, fn.None[AuxSweeper]()),
+		Publisher:            g,
+		NoDeadlineConfTarget: 1008,
+	})
+	s.currentHeight = c.Height
+
+	// the pending inputs, as handleNewInput / markInputsPublishFailed
+	// leave them.
+	withStart := 0
+	for k, sp := range c.Inputs {
+		op := wire.OutPoint{Index: uint32(r.Intn(4))}
+		copy(op.Hash[:], r.Bytes(32))
+		inp := &verifC18Input{op: op, wt: verifC18WT(sp.WT), lockTime: sp.Lock, hint: uint32(c.Height) - 10,
+			desc: input.SignDescriptor{Output: &wire.TxOut{Value: sp.Value, PkScript: verifC18Script(r, "p2wsh")}}}
+		if sp.ReqOut > 0 {
+			inp.reqOut = &wire.TxOut{Value: sp.ReqOut, PkScript: verifC18Script(r, "p2wsh")}
+		}
+		g.vals[op] = sp.Value
+		g.byOp[op] = k
+		g.last = append(g.last, 0)
+		pi := &SweeperInput{Input: inp, state: Init, DeadlineHeight: sp.Deadline,
+			params: Params{Budget: btcutil.Amount(sp.Budget), Immediate: sp.Immediate}}
+		if !sp.NoDLParam {
+			pi.params.DeadlineHeight = fn.Some(sp.Deadline)
+		}
+		if sp.Exclusive {
+			grp := uint64(k + 1)
+			pi.params.ExclusiveGroup = &grp
+		}
+		s.inputs[op] = pi
+		if sp.HasStart {
+			g.last[k] = sp.Start
+			if sp.Start > 0 {
+				withStart++
+			}
+			pi.publishAttempts = 1
+			if sp.ViaFailed {
+				// the input was part of a sweep whose publish
+				// failed at this rate: the sweeper's own handler
+				// of the TxFailed result records it.
+				pi.state = PendingPublish
+				if sp.PrevStart > 0 {
+					pi.params.StartingFeeRate = fn.Some(chainfee.SatPerKWeight(sp.PrevStart))
+					pi.publishAttempts = 2
+				}
+				s.markInputsPublishFailed(&verifC18OneSet{in: inp}, chainfee.SatPerKWeight(sp.Start))
+				vc.Count("regroup_inputs_marked_publish_failed", 1)
+			} else {
+				// mempool RBFInfo of an earlier sweep.
+				pi.params.StartingFeeRate = fn.Some(chainfee.SatPerKWeight(sp.Start))
+			}
+		}
+	}
+	vc.Count("regroup_inputs", int64(len(c.Inputs)))
+	vc.Count("regroup_inputs_already_offered", int64(withStart))
+
+	// One sweeper round at the current height: the real retry path of
+	// the sweeper's main loop.
+	s.sweepPendingInputs(s.updateSweeperInputs())
+	step := func(h int32) {
+		g.mu.Lock()
+		g.height = h
+		g.mu.Unlock()
+		tp.currentHeight.Store(h)
+		tp.processRecords()
+		tp.wg.Wait()
+		g.drain()
+		vc.Count("regroup_blocks", 1)
+	}
+	// non-immediate requests are published with the block.
+	step(c.Height)
+
+	// then on to one block before each deadline and to the deadline: the
+	// budget clause is judged on transactions at their ceiling.
+	var hs []int32
+	for _, q := range g.reqs {
+		d := q.req.DeadlineHeight
+		for _, h := range []int32{c.Height + (d-c.Height)/2, d - 1, d} {
+			if h > c.Height {
+				hs = append(hs, h)
+			}
+		}
+	}
+	sort.Slice(hs, func(i, j int) bool { return hs[i] < hs[j] })
+	prev := c.Height
+	for _, h := range hs {
+		if h == prev {
+			continue
+		}
+		step(h)
+		prev = h
+	}
+	close(s.quit)
+	s.wg.Wait()
+	close(tp.quit)
+
+	// bookkeeping
+	swept := 0
+	multi, corner, topup, offered := false, false, false, 0
+	for _, q := range g.reqs {
+		swept += len(q.members)
+		multi = multi || q.multi
+		corner = corner || q.corner
+		topup = topup || q.topup
+		if q.handed > 0 {
+			offered++
+		}
+	}
+	vc.Count("regroup_inputs_in_requests", int64(swept))
+	vc.Count("regroup_inputs_not_in_any_request", int64(len(c.Inputs)-swept))
+	vc.Count("regroup_requests_with_tx", int64(offered))
+	if multi {
+		vc.Count("regroup_cases_mixed_last_offered", 1)
+	}
+	if len(g.reqs) > 0 {
+		locks, excl, imm := 0, 0, 0
+		for _, sp := range c.Inputs {
+			if sp.Lock > 0 {
+				locks++
+			}
+			if sp.Exclusive {
+				excl++
+			}
+			if sp.Immediate {
+				imm++
+			}
+		}
+		vc.Sig(fmt.Sprintf("rg|n%d|req%d|max%d|mixed%v|corner%v|top%v|lock%v|excl%v|imm%v|off%d|fail%d",
+			verifC18Bucket(int64(len(c.Inputs))), len(g.reqs), c.MaxInputs, multi, corner, topup,
+			locks > 0, excl > 0, imm > 0, verifC18Bucket(int64(offered)), g.events["Failed"]+g.events["Fatal"]))
+	}
+}
+
+func TestVerifC18Regroup(t *testing.T) {
+	vc := verifStart(t, "C18", "regroup")
+	defer vc.Finish()
+	total := vc.N(40000, 4000000)
+	for i := 0; i < total; i++ {
+		if !vc.Mine(i) {
+			continue
+		}
+		r := vc.Rng(i)
+		c := verifC18GenRG(r)
+		vc.Case(i, c)
+		verifC18RunRG(t, vc, r.Fork("run"), &c)
+		if i%10000 == 3 && i < 100000 {
 			vc.Sample(c)
 		}
 		vc.CaseDone(i)
